@@ -366,12 +366,30 @@ func vOracle(out *vOut, r *rand.Rand, s vSnap, cfg *Config) {
 				fail("c08-l2-adv-attachment-not-exact", fmt.Sprintf("pool %s: carries an L2 advertisement (nodes,interfaces %s) that no resource names/selects for it", name, k))
 			}
 		}
-		// (7) local preference collisions
+		// (7) one route, one local preference: for an address of every family the pool has,
+		// every advertisement announces the aggregate (family, masked address, length) on its
+		// nodes to its peers (no peer list = every peer); two advertisements that announce the
+		// same aggregate on a common node to a common peer must carry the same local preference
+		type sample struct {
+			fam int
+			x   *big.Int
+		}
+		var samples []sample
 		fams := map[int]bool{}
 		for _, c := range p.CIDR {
 			if x, ok := vNetRange(c); ok {
+				samples = append(samples, sample{x.fam, x.lo}, sample{x.fam, x.hi})
 				fams[x.fam] = true
 			}
+		}
+		if fams[4] && fams[6] {
+			out.Stat("dualstack_pools_accepted", 1)
+		}
+		aggOf := func(a *BGPAdvertisement, fam int) int {
+			if fam == 4 {
+				return a.AggregationLength
+			}
+			return a.AggregationLengthV6
 		}
 		for i, a := range p.BGPAdvertisements {
 			for _, b := range p.BGPAdvertisements[i+1:] {
@@ -379,6 +397,9 @@ func vOracle(out *vOut, r *rand.Rand, s vSnap, cfg *Config) {
 					continue
 				}
 				out.Stat("localpref_pairs", 1)
+				if fams[4] && fams[6] {
+					out.Stat("localpref_pairs_on_dualstack_pool", 1)
+				}
 				common := false
 				for n := range a.Nodes {
 					common = common || b.Nodes[n]
@@ -389,9 +410,20 @@ func vOracle(out *vOut, r *rand.Rand, s vSnap, cfg *Config) {
 						peers = peers || x == y
 					}
 				}
-				same := (fams[4] && a.AggregationLength == b.AggregationLength) || (fams[6] && a.AggregationLengthV6 == b.AggregationLengthV6)
-				if common && peers && same {
-					fail("c08-localpref-collision-accepted", fmt.Sprintf("pool %s: advertisements %s (localpref %d) and %s (localpref %d) give one route two local preferences on a common node and peer", name, a.Name, a.LocalPref, b.Name, b.LocalPref))
+				if !common || !peers {
+					continue
+				}
+				for _, sm := range samples {
+					la, lb := aggOf(a, sm.fam), aggOf(b, sm.fam)
+					out.Stat(fmt.Sprintf("route_probes_ipv%d", sm.fam), 1)
+					if la < 0 || lb < 0 || la > vW(sm.fam) || lb > vW(sm.fam) {
+						continue
+					}
+					ra, rb := vCidrRange(sm.fam, sm.x, la), vCidrRange(sm.fam, sm.x, lb)
+					if la == lb && ra.lo.Cmp(rb.lo) == 0 {
+						fail("c08-localpref-collision-accepted", fmt.Sprintf("pool %s: advertisements %s (localpref %d) and %s (localpref %d) both announce %s/%d (IPv%d) on a common node to a common peer: one route, two local preferences", name, a.Name, a.LocalPref, b.Name, b.LocalPref, vText(sm.fam, ra.lo, false), la, sm.fam))
+						break
+					}
 				}
 			}
 		}
@@ -432,7 +464,18 @@ func vCorpusCfg() []vSnap {
 	f5b := vSnap{Modelled: true, Pools: f5.Pools, BGP: []vBGP{{Name: 0, LP: 100}, {Name: 1, LP: 200}}}
 	// F4: an IPv4-mapped pool refused every BGP advertisement (mask size 120 > 32)
 	f4c := vSnap{Modelled: true, Pools: []vPool{f4.Pools[0]}, BGP: []vBGP{{Name: 0}}}
-	return []vSnap{f4, f4b, f5, f5b, f4c}
+	// dual-stack pool, two advertisements with different local preferences whose aggregation
+	// length differs in IPv4 only / IPv6 only: the other family's route would get two local
+	// preferences, so both must be rejected (seeded/C08-2); differing in both is fine
+	v6b := new(big.Int).SetBytes(net.ParseIP("fc00:f853:ccd:e799::").To16()).String()
+	dualPool := mk(0, vAddr{Kind: 0, Fam: 4, Fam2: 4, A: ip("10.20.30.0"), Len: 24, Text: "10.20.30.0/24"},
+		vAddr{Kind: 0, Fam: 6, Fam2: 6, A: v6b, Len: 112, Text: "fc00:f853:ccd:e799::/112"})
+	i24, i32, i120, i128 := 24, 32, 120, 128
+	nodes := []vNode{{Name: 0}, {Name: 1}}
+	d1 := vSnap{Modelled: true, DualClash: 2, Nodes: nodes, Pools: []vPool{dualPool}, BGP: []vBGP{{Name: 0, LP: 100, Agg4: &i24, Agg6: &i128}, {Name: 1, LP: 200, Agg4: &i32, Agg6: &i128}}}
+	d2 := vSnap{Modelled: true, DualClash: 3, Nodes: nodes, Pools: []vPool{dualPool}, BGP: []vBGP{{Name: 0, LP: 100, Agg4: &i32, Agg6: &i120}, {Name: 1, LP: 200, Agg4: &i32, Agg6: &i128}}}
+	d3 := vSnap{Modelled: true, DualClash: 4, Nodes: nodes, Pools: []vPool{dualPool}, BGP: []vBGP{{Name: 0, LP: 100, Agg4: &i24, Agg6: &i120}, {Name: 1, LP: 200, Agg4: &i32, Agg6: &i128}}}
+	return []vSnap{f4, f4b, f5, f5b, f4c, d1, d2, d3}
 }
 
 // ---------------------------------------------------------------- address strings on their own
@@ -537,7 +580,13 @@ func TestVerifCfg(t *testing.T) {
 	}
 	snaps = append(snaps, vCorpusCfg()...)
 	for i := 0; i < n; i++ {
-		snaps = append(snaps, vGenSnap(r, vGenOpts{MinObj: 1 + i%3, MaxObj: 3 + i%3}))
+		o := vGenOpts{MinObj: 1 + i%3, MaxObj: 3 + i%3}
+		if i%8 == 7 {
+			o.DualClash = 1 + (i/8)%8
+		}
+		s := vGenSnap(r, o)
+		s.DualClash = o.DualClash
+		snaps = append(snaps, s)
 	}
 	id := 0
 	for _, s := range snaps {
@@ -551,6 +600,14 @@ func TestVerifCfg(t *testing.T) {
 			continue
 		}
 		res := cNone
+		if s.DualClash > 0 {
+			k := []string{"none", "ipv4_only", "ipv6_only", "both"}[(s.DualClash-1)%4]
+			if err == nil {
+				out.Stat("dualclash_lengths_differ_in_"+k+"_accepted", 1)
+			} else {
+				out.Stat("dualclash_lengths_differ_in_"+k+"_rejected", 1)
+			}
+		}
 		if err == nil {
 			out.Stat("accepted", 1)
 			vOracle(out, r, s, cfg)
